@@ -12,6 +12,7 @@ import (
 	"go/constant"
 	"go/token"
 	"go/types"
+	"strconv"
 	"strings"
 )
 
@@ -24,6 +25,7 @@ type ClientReqRow struct {
 	Formats   []FormatCall
 	FromField bool
 	Escaped   bool // path: wrapped in url.PathEscape
+	Problems  []string
 	Pos       token.Pos
 }
 
@@ -220,17 +222,30 @@ func builderAsConcat(info *types.Info, list []ast.Stmt) []ast.Stmt {
 			return nil
 		}
 		sel, ok := call.Fun.(*ast.SelectorExpr)
-		if !ok || sel.Sel.Name != "WriteString" || identObj(info, sel.X) != b {
+		if !ok || identObj(info, sel.X) != b {
 			return nil
 		}
-		return call.Args[0]
+		switch sel.Sel.Name {
+		case "WriteString":
+			return call.Args[0]
+		case "WriteByte", "WriteRune":
+			// a constant byte / rune is the one-character string
+			if tv := info.Types[call.Args[0]]; tv.Value != nil && tv.Value.Kind() == constant.Int {
+				if v, ok := constant.Int64Val(tv.Value); ok && v > 0 && v < 0x110000 {
+					lit := &ast.BasicLit{ValuePos: call.Args[0].Pos(), Kind: token.STRING, Value: strconv.Quote(string(rune(v)))}
+					info.Types[lit] = types.TypeAndValue{Type: types.Typ[types.String], Value: constant.MakeString(string(rune(v)))}
+					return lit
+				}
+			}
+		}
+		return nil
 	}
 	// every other use of the builder must be u.String()
 	okUses := true
 	for _, st := range list {
 		ast.Inspect(st, func(n ast.Node) bool {
 			if sel, ok := n.(*ast.SelectorExpr); ok && identObj(info, sel.X) == b {
-				if sel.Sel.Name != "WriteString" && sel.Sel.Name != "String" {
+				if sel.Sel.Name != "WriteString" && sel.Sel.Name != "WriteByte" && sel.Sel.Name != "WriteRune" && sel.Sel.Name != "String" {
 					okUses = false
 				}
 				return false
@@ -670,6 +685,8 @@ func buildClientMethod(p *Program, fd *ast.FuncDecl, sig *types.Signature) *Clie
 		}
 	}
 	if queryObj != nil {
+		// slices stored into the query map by reference (a temporary shared between rows)
+		storedTemps := map[types.Object]string{}
 		for ; i < len(list); i++ {
 			st := list[i]
 			// terminator: requestURL += "?" + query.Encode()
@@ -779,6 +796,34 @@ func buildClientMethod(p *Program, fd *ast.FuncDecl, sig *types.Signature) *Clie
 				}
 				return true
 			})
+			// a temporary that an earlier row stored into the map must not be re-sliced or written in place:
+			// the map holds the same backing array (`qv = qv[:0]` + append rewrites the earlier parameter)
+			ast.Inspect(unit, func(x ast.Node) bool {
+				as, ok := x.(*ast.AssignStmt)
+				if !ok {
+					return true
+				}
+				for j, l := range as.Lhs {
+					if ix, isIx := ast.Unparen(l).(*ast.IndexExpr); isIx {
+						if o := identObj(info, ix.X); o != nil && storedTemps[o] != "" {
+							row.Problems = append(row.Problems, fmt.Sprintf("element of %s is overwritten after the slice was stored under query key %q: the earlier parameter's values change", o.Name(), storedTemps[o]))
+						}
+					}
+					if o := identObj(info, l); o != nil && storedTemps[o] != "" && j < len(as.Rhs) && len(as.Lhs) == len(as.Rhs) {
+						if sl, isSl := ast.Unparen(as.Rhs[j]).(*ast.SliceExpr); isSl && identObj(info, sl.X) == o {
+							row.Problems = append(row.Problems, fmt.Sprintf("%s is re-sliced (%s) after it was stored under query key %q: the next append overwrites the values of that parameter in the map (shared backing array)", o.Name(), types.ExprString(as.Rhs[j]), storedTemps[o]))
+						}
+					}
+				}
+				return true
+			})
+			if o := identObj(info, store.Rhs[0]); o != nil {
+				if v, isVar := o.(*types.Var); isVar && !v.IsField() && v.Parent() != nil && v.Parent() != p.Pkg.Types.Scope() {
+					if _, isSlice := v.Type().Underlying().(*types.Slice); isSlice {
+						storedTemps[o] = k
+					}
+				}
+			}
 			// []string passed through: query[K] = request.Query.F / qvOpt
 			stored := store.Rhs[0]
 			if o := identObj(info, stored); o != nil {
